@@ -8,6 +8,7 @@ import (
 	"go/types"
 	"regexp/syntax"
 	"sort"
+	"strings"
 
 	"golang.org/x/tools/go/ssa"
 )
@@ -1931,4 +1932,142 @@ func ruleMAPEQ(p *Program, r *Reporter) {
 	}
 	r.Ob(id, "all packages", "single-value lookups keyed by another map's range", token.NoPos, true, nAll > 0,
 		fmt.Sprintf("%d such lookups examined, %d compared with the ranged value", nAll, n))
+}
+
+// ---------------------------------------------------------------------------
+// P-NIL-REFLECT — converting a wire value to its native form never calls a
+// method on reflect.TypeOf(x) unless x is known to be non-nil: a JSON null
+// decodes to a nil interface, reflect.TypeOf(nil) is the nil Type, and a
+// method call on it is a nil dereference that takes the server down.
+// Scope: the OvsToNative* functions of package ovsdb and what they reach.
+
+func rulePNILREFLECT(p *Program, r *Reporter) {
+	const id = "P-NIL-REFLECT"
+	var roots []*ssa.Function
+	for _, fn := range p.srcFuncs {
+		if pkgOf(fn) == "ovsdb" && fn.Parent() == nil && strings.HasPrefix(fn.Name(), "OvsToNative") {
+			roots = append(roots, fn)
+		}
+	}
+	if len(roots) < 2 {
+		r.Anchor(id, "ovsdb.OvsToNative* functions")
+		return
+	}
+	n := 0
+	for _, g := range p.Reach(roots...) {
+		fc := newFlowCtx(g)
+		for _, b := range g.Blocks {
+			for _, ins := range b.Instrs {
+				c, ok := ins.(*ssa.Call)
+				if !ok || !c.Call.IsInvoke() {
+					continue
+				}
+				tc, ok := c.Call.Value.(*ssa.Call)
+				if !ok {
+					continue
+				}
+				sc := tc.Call.StaticCallee()
+				if sc == nil || sc.Pkg == nil || sc.Pkg.Pkg.Path() != "reflect" || sc.Name() != "TypeOf" || len(tc.Call.Args) != 1 {
+					continue
+				}
+				arg := tc.Call.Args[0]
+				n++
+				ok2, why := false, ""
+				if mi, isMI := arg.(*ssa.MakeInterface); isMI {
+					if _, isIface := mi.X.Type().Underlying().(*types.Interface); !isIface {
+						ok2, why = true, "argument is a concrete value"
+					}
+				}
+				if !ok2 {
+					ok2, why = fc.nonNilAt(arg, c)
+				}
+				if !ok2 {
+					why = "reflect.TypeOf(x)." + c.Call.Method.Name() + " with x possibly nil (a JSON null decodes to nil): nil Type dereference, the transact handler panics and the server dies"
+				}
+				r.Ob(id, funcName(g), "method on reflect.TypeOf", c.Pos(), ok2, true, why)
+			}
+		}
+	}
+	if n == 0 {
+		r.Info("P-NIL-REFLECT: no method call on reflect.TypeOf(x) in the wire-to-native conversion")
+	}
+}
+
+// ---------------------------------------------------------------------------
+// T-UUIDFREE — an insert is only turned into an update after the database (and
+// the rows the transaction already created) were asked whether the uuid is in
+// use. Nothing downstream notices a clash before Commit, which applies rows one
+// by one and stops half way. Structural form: in Transaction.Insert the call
+// that builds the update is dominated by a branch whose condition derives from
+// an existence lookup (Database.Get, RowCache.HasRow/Row) keyed by the
+// operation's UUID member, and the other arm of that branch cannot reach it.
+
+func ruleTUUIDFREE(p *Program, r *Reporter) {
+	const id = "T-UUIDFREE"
+	fn := p.Fn("database/transaction", "Transaction", "Insert")
+	uuidFld := p.Field("ovsdb", "Operation", "UUID")
+	if fn == nil || uuidFld == nil {
+		r.Anchor(id, "transaction.(*Transaction).Insert / ovsdb.Operation.UUID")
+		return
+	}
+	isUUIDLoad := func(v ssa.Value) bool {
+		ld, ok := v.(*ssa.UnOp)
+		if !ok {
+			return false
+		}
+		fa, ok := ld.X.(*ssa.FieldAddr)
+		return ok && fieldOfAddr(fa) == uuidFld
+	}
+	n := 0
+	for g := range p.PrivateRegion(fn) {
+		var lookups []*ssa.Call
+		var builds []*ssa.Call
+		for _, b := range g.Blocks {
+			for _, ins := range b.Instrs {
+				c, ok := ins.(*ssa.Call)
+				if !ok {
+					continue
+				}
+				name := ""
+				if sc := c.Call.StaticCallee(); sc != nil {
+					name = sc.Name()
+				} else if c.Call.IsInvoke() {
+					name = c.Call.Method.Name()
+				}
+				switch name {
+				case "AddOperation":
+					builds = append(builds, c)
+				case "Get", "HasRow", "Row":
+					for _, a := range c.Call.Args {
+						if isUUIDLoad(a) {
+							lookups = append(lookups, c)
+						}
+					}
+				}
+			}
+		}
+		for _, bc := range builds {
+			n++
+			ok := false
+			for _, lc := range lookups {
+				derived := forwardDerived(g, lc)
+				for _, b := range g.Blocks {
+					iff, isIf := b.Instrs[len(b.Instrs)-1].(*ssa.If)
+					if !isIf || !derived[iff.Cond] || !b.Dominates(bc.Block()) {
+						continue
+					}
+					for _, s := range b.Succs {
+						if !blockReaches(s, bc.Block()) {
+							ok = true
+						}
+					}
+				}
+			}
+			r.Ob(id, funcName(g), "uuid checked to be free", bc.Pos(), ok, true,
+				ifs(ok, "the update is only built after an existence lookup keyed by the operation's uuid let it through", "the insert is turned into an update without asking whether its uuid is already in use: an insert carrying the uuid of an existing row passes validation, monitors are notified, and Commit fails half way leaving part of the transaction in the database"))
+		}
+	}
+	if n < 1 {
+		r.Anchor(id, "Transaction.Insert: call building the update (AddOperation)")
+	}
 }
